@@ -55,6 +55,7 @@ type c08Case struct {
 	ProtoB   string `json:"proto"`
 	Persist  string `json:"persist"`
 	FailAt   int    `json:"fail_at,omitempty"`
+	Login    string `json:"login_url,omitempty"` // the integrator's login UI URL form (ssoP.LoginURL)
 	Size     string `json:"size,omitempty"` // "" | relay-N | id-N: RelayState / request ID of N characters (replies that echo them get large)
 }
 
@@ -65,7 +66,7 @@ func (c c08Case) params() ssoP {
 			v.Set(&p)
 		}
 	}
-	p.ACS, p.ProtoB = c.ACS, c.ProtoB
+	p.ACS, p.ProtoB, p.LoginURL = c.ACS, c.ProtoB, c.Login
 	if strings.HasPrefix(c.Size, "relay-") {
 		p.Relay = "long-" + strings.TrimPrefix(c.Size, "relay-")
 	}
@@ -96,6 +97,9 @@ func (c c08Case) labels() []string {
 	}
 	if c.Size != "" {
 		l = append(l, "size="+c.Size)
+	}
+	if c.Login != "" {
+		l = append(l, "login-url="+c.Login)
 	}
 	if c.FailAt > 0 {
 		l = append(l, fmt.Sprintf("writer-fails-at=%d", c.FailAt))
@@ -258,6 +262,16 @@ func runC08(ctx Ctx) int {
 			for _, ps := range []string{"", "error"} {
 				for _, sz := range []string{"relay-1000", "relay-7000", "relay-8192", "relay-65536", "id-12000", "id-70000"} {
 					cases = append(cases, c08Case{Validity: v.Name, ACS: a, Persist: ps, Size: sz})
+				}
+			}
+		}
+	}
+	// the integrator's login UI URL in other legal forms (where the browser is sent on to is the integrator's business)
+	for _, v := range c08Validities {
+		for _, a := range []string{"", "redirect-only", "post-only", "redirect-default+post"} {
+			for _, ps := range []string{"", "error"} {
+				for _, lg := range []string{"http", "relative", "odd-escape"} {
+					cases = append(cases, c08Case{Validity: v.Name, ACS: a, Persist: ps, Login: lg})
 				}
 			}
 		}
